@@ -105,7 +105,10 @@ impl Ssh {
                                 }
                             }
                         } else {
-                            // TODO: what should we do if it's None?
+                            // the channel is gone (e.g. the connection was lost without EOF):
+                            // stop, so that receivers see the closed queue as an error
+                            tracing::info!("ssh channel closed, hanging up");
+                            break;
                         }
                     }
                 }
